@@ -672,7 +672,12 @@ class IndexInterp:
         if isinstance(e.func, ast.Name) and isinstance(self.env.get(e.func.id), Closure):
             return self.call_closure(self.env[e.func.id], self.call_args(e), {k.arg: self.ev(k.value) for k in e.keywords if k.arg}, e)
         if isinstance(e.func, ast.Name) and e.func.id in ("map", "starmap") and len(e.args) >= 2 and e.func.id not in self.env:
-            f0 = self.ev(e.args[0])
+            try:
+                f0 = self.ev(e.args[0])
+            except AnalysisError:
+                if not isinstance(e.args[0], ast.Name):
+                    raise
+                f0 = None          # a built-in function passed by name (`map(range, shape)`): called below like a call written in the program
             seqs = [self._iterate(self.ev(a), e) for a in e.args[1:]]
             rows = [list(xs) for xs in zip(*seqs)] if e.func.id == "map" else [list(self._iterate(xs, e)) for xs in seqs[0]]
             if isinstance(f0, Closure):
@@ -733,6 +738,9 @@ class IndexInterp:
                 else:
                     new_args.append(a0)
             args = args[:(1 if nm == "map" else 0)] + new_args
+        if plain and nm == "islice" and 2 <= len(args) <= 4 and all(a0 is None or isinstance(a0, int) for a0 in args[1:]):
+            seq0 = self._iterate(args[0], e)
+            return list(itertools.islice(seq0, *args[1:]))
         if plain and nm == "range" and all(isinstance(a, int) for a in args):
             return list(range(*args))
         if plain and nm == "enumerate":
@@ -906,6 +914,12 @@ class IndexInterp:
                 base = self.ev(e.func.value)
             except AnalysisError:
                 base = None
+            if isinstance(base, str) and nm == "format" and all(a is None or (isinstance(a, (str, int, float)) and not is_token(a)) for a in args) \
+                    and all(v0 is None or isinstance(v0, (str, int, float)) for v0 in kw.values()):
+                try:
+                    return base.format(*args, **kw)          # None is formatted as Python formats it ('None')
+                except (IndexError, KeyError, ValueError):
+                    raise ProgramRaise("IndexError", "`%s`: replacement fields and arguments do not match" % src(e)[:60])
             if isinstance(base, str) and all(isinstance(a, (str, int, float, tuple)) and not is_token(a) for a in args):
                 return getattr(base, nm)(*args)
         if isinstance(e.func, ast.Attribute) and nm == "update" and len(args) <= 1:
@@ -1052,7 +1066,7 @@ class IndexInterp:
     def call_closure(self, c, vals, kws, node):
         n0 = c.node
         a = n0.args
-        if a.vararg or a.kwarg or a.kwonlyargs or self.depth >= 6:
+        if self.depth >= 6:
             raise AnalysisError("call of `%s` outside the index-program fragment" % src(node)[:60])
         ps = [x.arg for x in a.posonlyargs + a.args]
         defaults = dict(zip(ps[len(ps) - len(a.defaults):], a.defaults))
@@ -1066,6 +1080,22 @@ class IndexInterp:
                 env2[p0] = self.ev(defaults[p0])
             else:
                 raise ProgramRaise("TypeError", "missing argument `%s` in `%s`" % (p0, src(node)[:50]))
+        if len(vals) > len(ps) and a.vararg is None:
+            raise ProgramRaise("TypeError", "too many positional arguments in `%s`" % src(node)[:50])
+        if a.vararg is not None:
+            env2[a.vararg.arg] = tuple(vals[len(ps):])
+        for x0, d0 in zip(a.kwonlyargs, a.kw_defaults):
+            if x0.arg in kws:
+                env2[x0.arg] = kws[x0.arg]
+            elif d0 is not None:
+                env2[x0.arg] = self.ev(d0)
+            else:
+                raise ProgramRaise("TypeError", "missing keyword argument `%s` in `%s`" % (x0.arg, src(node)[:50]))
+        extra = {k0: v0 for k0, v0 in kws.items() if k0 not in ps and k0 not in [x0.arg for x0 in a.kwonlyargs]}
+        if a.kwarg is not None:
+            env2[a.kwarg.arg] = extra
+        elif extra:
+            raise ProgramRaise("TypeError", "unexpected keyword argument `%s` in `%s`" % (sorted(extra)[0], src(node)[:50]))
         sub = type(self).__new__(type(self))
         sub.__dict__.update(self.__dict__)
         sub.__dict__.pop("ev", None)
@@ -1103,12 +1133,12 @@ class IndexInterp:
         if target is None or target.name.startswith("__") or self.depth >= 4 or not (target.name.startswith("_") or same_module_function):
             return NotImplemented
         a = target.args
-        if a.vararg or a.kwarg or a.kwonlyargs or any(isinstance(x, ast.Starred) for x in e.args) or any(k.arg is None for k in e.keywords):
+        if a.vararg or a.kwarg or a.kwonlyargs or any(k.arg is None for k in e.keywords):
             return NotImplemented
         ps = [x.arg for x in a.posonlyargs + a.args]
         if recv_self is not None:
             ps = ps[1:]
-        vals = [self.ev(x) for x in e.args]
+        vals = self.call_args(e)
         kws = {k.arg: self.ev(k.value) for k in e.keywords}
         if len(vals) > len(ps) or any(k0 not in ps for k0 in kws):
             return NotImplemented
